@@ -54,9 +54,12 @@ TaskSetBase* parentTaskSet() {
 void TaskSetBase::trySetCurrentException() {
 #if defined(__cpp_exceptions)
   auto status = kUnset;
+  DISPENSO_VERIF_POINT("TsExcCas", this);
   if (guardException_.compare_exchange_strong(status, kSetting, std::memory_order_acq_rel)) {
     exception_ = std::current_exception();
+    DISPENSO_VERIF_POINT("TsExcStoreSet", this);
     guardException_.store(kSet, std::memory_order_release);
+    DISPENSO_VERIF_POINT("TsExcStoreCancel", this);
     canceled_.store(true, std::memory_order_release);
   }
 #endif // __cpp_exceptions
@@ -64,12 +67,15 @@ void TaskSetBase::trySetCurrentException() {
 
 inline bool TaskSetBase::testAndResetException() {
 #if defined(__cpp_exceptions)
+  DISPENSO_VERIF_POINT("TsTarLoadGuard", this);
   if (guardException_.load(std::memory_order_acquire) == kSet) {
     auto exception = std::move(exception_);
+    DISPENSO_VERIF_POINT("TsTarStoreUnset", this);
     guardException_.store(kUnset, std::memory_order_release);
     std::rethrow_exception(exception);
   }
 #endif // __cpp_exceptions
+  DISPENSO_VERIF_POINT("TsTarLoadCancel", this);
   return canceled_.load(std::memory_order_acquire);
 }
 
@@ -85,6 +91,7 @@ bool ConcurrentTaskSet::wait() {
   // Work may be in the central queue or in per-thread rings (via proactive
   // wake). Drain each source fully before switching to avoid oscillation.
   size_t startRing = 0;
+  DISPENSO_VERIF_POINT("TsWaitLoadOut", this);
   while (outstandingTaskCount_.load(std::memory_order_acquire)) {
     // Drain central queue
     while (pool_.tryExecuteNext()) {
@@ -93,9 +100,11 @@ bool ConcurrentTaskSet::wait() {
     while (pool_.tryExecuteNextFromRings(startRing)) {
     }
     // If neither had work, yield and retry
+    DISPENSO_VERIF_POINT("TsWaitLoadOut2", this);
     if (outstandingTaskCount_.load(std::memory_order_acquire)) {
       std::this_thread::yield();
     }
+    DISPENSO_VERIF_POINT("TsWaitLoadOut", this);
   }
 
   return testAndResetException();
@@ -103,6 +112,7 @@ bool ConcurrentTaskSet::wait() {
 
 bool ConcurrentTaskSet::tryWait(size_t maxToExecute) {
   size_t startRing = 0;
+  DISPENSO_VERIF_POINT("TsTryLoadOut", this);
   while (outstandingTaskCount_.load(std::memory_order_acquire) && maxToExecute) {
     if (pool_.tryExecuteNext()) {
       --maxToExecute;
@@ -111,11 +121,13 @@ bool ConcurrentTaskSet::tryWait(size_t maxToExecute) {
     } else {
       break;
     }
+    DISPENSO_VERIF_POINT("TsTryLoadOut", this);
   }
 
   // Must check completion prior to checking exceptions, otherwise there could be a case where
   // exceptions are checked, then an exception is propagated, and then we return whether all items
   // have been completed, thus dropping the exception.
+  DISPENSO_VERIF_POINT("TsTryLoadFinal", this);
   if (outstandingTaskCount_.load(std::memory_order_acquire)) {
     return false;
   }
@@ -139,14 +151,17 @@ bool TaskSet::wait() {
 
   // Then drain central queue, rings, repeat until done.
   size_t startRing = 0;
+  DISPENSO_VERIF_POINT("TsWaitLoadOut", this);
   while (outstandingTaskCount_.load(std::memory_order_acquire)) {
     while (pool_.tryExecuteNext()) {
     }
     while (pool_.tryExecuteNextFromRings(startRing)) {
     }
+    DISPENSO_VERIF_POINT("TsWaitLoadOut2", this);
     if (outstandingTaskCount_.load(std::memory_order_acquire)) {
       std::this_thread::yield();
     }
+    DISPENSO_VERIF_POINT("TsWaitLoadOut", this);
   }
 
   return testAndResetException();
@@ -154,12 +169,14 @@ bool TaskSet::wait() {
 
 bool TaskSet::tryWait(size_t maxToExecute) {
   ssize_t maxToExe = static_cast<ssize_t>(maxToExecute);
+  DISPENSO_VERIF_POINT("TsTryLoadOutTok", this);
   while (outstandingTaskCount_.load(std::memory_order_acquire) && maxToExe) {
     if (pool_.tryExecuteNextFromProducerToken(token_)) {
       --maxToExe;
     } else {
       break;
     }
+    DISPENSO_VERIF_POINT("TsTryLoadOutTok", this);
   }
 
   // Must check completion prior to checking exceptions, otherwise there could be a case where
@@ -167,6 +184,7 @@ bool TaskSet::tryWait(size_t maxToExecute) {
   // have been completed, thus dropping the exception.
 
   size_t startRing = 0;
+  DISPENSO_VERIF_POINT("TsTryLoadOut", this);
   while (outstandingTaskCount_.load(std::memory_order_acquire) && maxToExe) {
     if (pool_.tryExecuteNext()) {
       --maxToExe;
@@ -175,8 +193,10 @@ bool TaskSet::tryWait(size_t maxToExecute) {
     } else {
       break;
     }
+    DISPENSO_VERIF_POINT("TsTryLoadOut", this);
   }
 
+  DISPENSO_VERIF_POINT("TsTryLoadFinal", this);
   if (outstandingTaskCount_.load(std::memory_order_acquire)) {
     return false;
   }
